@@ -66,3 +66,101 @@ func kindEffSeq(c *Ctx, it Item) (string, error) {
 	})
 	return fmt.Sprintf("def %s : List String := %s\n", it.Str("name"), leanStrList(seq)), nil
 }
+
+// enclosing {"name","dir","func","calls":[callee names]}
+//   → def <name> : List (String × List String)
+// For every call of a tracked callee (source order): the chain of control statements that enclose it, outermost
+// first: "if <cond>", "else(<cond>)" (the call sits in the else branch of that if), "for <range/cond text>",
+// "switch"/"case <exprs>", "select-case", "func" (a function literal). Used to tie statement *shape*: e.g. that the
+// channel pre-creation loop of GetTopic is not inside a branch on the error of the lookupd query.
+func init() { register("enclosing", kindEnclosing) }
+
+func kindEnclosing(c *Ctx, it Item) (string, error) {
+	p, fd, err := c.FindFunc(it.Str("dir"), it.Str("func"))
+	if err != nil {
+		return "", err
+	}
+	track := map[string]bool{}
+	for _, s := range it.Strs("calls") {
+		track[s] = true
+	}
+	var rows []string
+	var walk func(n ast.Node, stack []string)
+	walkList := func(list []ast.Stmt, stack []string) {
+		for _, s := range list {
+			walk(s, stack)
+		}
+	}
+	push := func(stack []string, s string) []string {
+		out := make([]string, len(stack), len(stack)+1)
+		copy(out, stack)
+		return append(out, s)
+	}
+	walk = func(n ast.Node, stack []string) {
+		if n == nil {
+			return
+		}
+		switch x := n.(type) {
+		case *ast.IfStmt:
+			if x.Init != nil {
+				walk(x.Init, stack)
+			}
+			cond := exprText(p.Fset, x.Cond)
+			walk(x.Cond, stack)
+			walkList(x.Body.List, push(stack, "if "+cond))
+			if x.Else != nil {
+				switch e := x.Else.(type) {
+				case *ast.BlockStmt:
+					walkList(e.List, push(stack, "else("+cond+")"))
+				default:
+					walk(e, push(stack, "else("+cond+")"))
+				}
+			}
+		case *ast.ForStmt:
+			hd := "for"
+			if x.Cond != nil {
+				hd = "for " + exprText(p.Fset, x.Cond)
+			}
+			walkList(x.Body.List, push(stack, hd))
+		case *ast.RangeStmt:
+			walk(x.X, stack)
+			walkList(x.Body.List, push(stack, "for range "+exprText(p.Fset, x.X)))
+		case *ast.BlockStmt:
+			walkList(x.List, stack)
+		case *ast.CaseClause:
+			var es []string
+			for _, e := range x.List {
+				es = append(es, exprText(p.Fset, e))
+			}
+			walkList(x.Body, push(stack, "case "+strings.Join(es, ",")))
+		case *ast.CommClause:
+			walkList(x.Body, push(stack, "select-case"))
+		case *ast.FuncLit:
+			walkList(x.Body.List, push(stack, "func"))
+		case *ast.CallExpr:
+			if nm := calleeName(x.Fun); track[nm] {
+				rows = append(rows, fmt.Sprintf("(%s, %s)", leanStr(nm), leanStrList(stack)))
+			}
+			walk(x.Fun, stack)
+			for _, a := range x.Args {
+				walk(a, stack)
+			}
+		default:
+			// generic descent over the remaining node kinds (one level), keeping the stack
+			ast.Inspect(n, func(m ast.Node) bool {
+				if m == nil || m == n {
+					return true
+				}
+				switch m.(type) {
+				case *ast.IfStmt, *ast.ForStmt, *ast.RangeStmt, *ast.BlockStmt, *ast.CaseClause, *ast.CommClause,
+					*ast.FuncLit, *ast.CallExpr:
+					walk(m, stack)
+					return false
+				}
+				return true
+			})
+		}
+	}
+	walkList(fd.Body.List, nil)
+	return fmt.Sprintf("def %s : List (String × List String) := [\n  %s]\n", it.Str("name"), strings.Join(rows, ",\n  ")), nil
+}
